@@ -4,7 +4,9 @@
 package redis
 
 import (
+	"errors"
 	"sort"
+	"time"
 
 	"github.com/samaritan-proxy/samaritan/host"
 	"github.com/samaritan-proxy/samaritan/pb/config/service"
@@ -164,4 +166,37 @@ func (r *VerifRig) RefreshTriggered() bool {
 	default:
 		return false
 	}
+}
+
+// Refresh runs the real doSlotsRefresh and answers its CLUSTER NODES request with reply.
+func (r *VerifRig) Refresh(reply *RespValue) error {
+	errc := make(chan error, 1)
+	go func() { errc <- r.p.u.doSlotsRefresh() }()
+	deadline := time.After(3 * time.Second)
+	for {
+		for _, s := range r.Drain() {
+			s.Reply(reply)
+		}
+		select {
+		case err := <-errc:
+			return err
+		case <-deadline:
+			return errors.New("verif: slots refresh did not finish")
+		default:
+			time.Sleep(50 * time.Microsecond)
+		}
+	}
+}
+
+// SlotOwner returns the routing table entry of a slot: master address and replica addresses.
+func (r *VerifRig) SlotOwner(slot int) (string, []string) {
+	inst := r.p.u.slots[slot]
+	if inst == nil {
+		return "", nil
+	}
+	var reps []string
+	for _, x := range inst.Replicas {
+		reps = append(reps, x.Addr)
+	}
+	return inst.Addr, reps
 }
